@@ -170,6 +170,28 @@ func §E() {
 	drv.Run[int](func() drv.It[int] { it := §gen(&§node{}); return it })
 }
 `, "panic:nil-pointer"),
+		Raw("panic-with-nil-value-in-delegate", `
+func §sub() ITER[int] GEN[int]{
+	YIELD(0)
+	YIELD(1)
+	var err error
+	panic(err)
+}GEN
+func §gen() ITER[int] GEN[int]{
+	YFROM(§sub())
+	YIELD(8)
+	YIELD(9)
+	RETNIL
+}GEN
+func §direct() ITER[int] GEN[int]{
+	YIELD(1)
+	panic(nil)
+}GEN
+func §E() {
+	drv.Run[int](func() drv.It[int] { it := §gen(); return it })
+	drv.Run[int](func() drv.It[int] { it := §direct(); return it })
+}
+`, "panic:nil"),
 		G("panic-nil-func-call", `
 var f func() int
 YIELD(1)
